@@ -200,6 +200,15 @@ fn call_seq(t: &dyn DynSeq, m: &SeqModel, c: &Call, ctx: &mut Ctx) -> CheckResul
             let _ = it.len();
             let _ = it.next_back();
             let _ = it.len();
+            // provided methods with a raw argument on the partially consumed iterator
+            let b = resolve(c.b, n, cnt);
+            note("iter.nth", b as u128, steps as u128, 0);
+            let left = n.saturating_sub(steps.min(n)).saturating_sub(if n > steps { 1 } else { 0 });
+            let g = it.nth(b);
+            ensure!(g.is_some() == (b < left), "{who}: nth({b}) on an iterator with {left} items left returned {:?}", g);
+            let _ = it.nth_back(b);
+            let l = it.len();
+            ensure!(l <= n, "{who}: len() = {l} after nth / nth_back");
         }
         9 => {
             note("space_usage", 0, 0, 0);
@@ -637,11 +646,11 @@ impl Prop for C04 {
     fn cases(&self, tier: Tier, build: &str) -> u32 {
         match (tier, build) {
             (Tier::Quick, "asan") => 9_600,
-            (Tier::Thorough, "asan") => 120_000,
+            (Tier::Thorough, "asan") => 60_000,
             (Tier::Quick, "fast") => 48_000,
             (Tier::Quick, _) => 24_000,
-            (Tier::Thorough, "fast") => 400_000,
-            (Tier::Thorough, _) => 150_000,
+            (Tier::Thorough, "fast") => 300_000,
+            (Tier::Thorough, _) => 100_000,
         }
     }
     fn rule(&self) -> &'static str {
